@@ -1,6 +1,6 @@
 """C12 — random streams are reproducible, resettable, restorable,
 independent and in range."""
-from vf import common, shrink as shr
+from vf import common, shrink as shr, twothread
 
 common.use_repo()
 from pydsol.core.streams import MersenneTwister      # noqa: E402
@@ -37,8 +37,91 @@ ASSUMPTIONS = ["sizes are swarm-varied: about 1 % of the histories have 700 or 2
 SEEDS = [0, 1, 2, 10, 101, -1, -7, 2 ** 31, 2 ** 32 + 5, 2 ** 63, 2 ** 200, 12345678901234567890]
 
 
+def init_worker():
+    twothread.install(_streams_mod)
+
+
+def _gen_stream_ops(rng, n):
+    ops = []
+    for _ in range(n):
+        r = rng.random()
+        if r < 0.45:
+            ops.append([0, rng.choice(["float", "float", "bool"])])
+        elif r < 0.6:
+            ops.append([0, "int", 0, 9])
+        elif r < 0.75:
+            ops.append([0, "set_seed", rng.choice(SEEDS)])
+        elif r < 0.9:
+            ops.append([0, "reset"])
+        else:
+            ops.append([0, "save"] if rng.random() < 0.5 else [0, "restore", rng.random()])
+    return ops
+
+
+def gen_threaded(rng, seed):
+    """Two threads, each with its OWN stream (two simulators side by side that
+    reseed at replication start): constructing, seeding, resetting, saving,
+    restoring and drawing at the same time, under seeded pre-emption inside
+    streams.py.  Each stream must behave exactly as it does alone."""
+    return {"kind": "threaded", "seeds": [rng.choice(SEEDS), rng.choice(SEEDS)],
+            "ops_a": _gen_stream_ops(rng, rng.choice([3, 6, 12])),
+            "ops_b": _gen_stream_ops(rng, rng.choice([3, 6, 12])),
+            "sched": {"seed": seed, "p": rng.choice([0.05, 0.15, 0.3]),
+                      "d": rng.choice([2, 4, 8, 20])}}
+
+
+def _run_ops(seed_value, ops):
+    st = MersenneTwister(seed_value)
+    toks, outs = [], []
+    for op in ops:
+        name = op[1]
+        if name in ("float", "int", "bool"):
+            outs.append(draw(st, op))
+        elif name == "set_seed":
+            st.set_seed(op[2])
+        elif name == "reset":
+            st.reset()
+        elif name == "save":
+            toks.append(st.save_state())
+        elif name == "restore" and toks:
+            st.restore_state(toks[int(op[2] * len(toks)) % len(toks)])
+    outs.append(("seed", st.seed()))
+    return outs
+
+
+def run_threaded(case):
+    info = {"reset_or_restore_after_draws": True, "draws_after": True, "draws": 0}
+    res = {}
+    init_worker()
+    det, errors = twothread.run_two(
+        case["sched"],
+        lambda: res.__setitem__("a", _run_ops(case["seeds"][0], case["ops_a"])),
+        lambda: res.__setitem__("b", _run_ops(case["seeds"][1], case["ops_b"])))
+    info["switches"] = det.n_switch
+    info["schedule"] = [det.ydigest, det.step, [list(d) for d in det.decisions]]
+    if det.aborted:
+        return ("harness", "two-thread run aborted: %s" % det.aborted), info
+    if errors:
+        return ("not-independent", "using two streams in two threads raised %s: %s"
+                % (errors[0][1], errors[0][2])), info
+    for who, sd, ops in (("a", case["seeds"][0], case["ops_a"]),
+                         ("b", case["seeds"][1], case["ops_b"])):
+        alone = _run_ops(sd, ops)
+        info["draws"] += len(alone)
+        if res.get(who) != alone:
+            j = next(k for k in range(len(alone)) if res[who][k] != alone[k])
+            return ("not-independent",
+                    "two threads each used their own stream at the same time (%d thread "
+                    "switches inside streams.py): the stream seeded %d produced %r as output "
+                    "#%d of its operations %s, alone it produces %r"
+                    % (det.n_switch, sd, res[who][j], j, ops[:6], alone[j])), info
+    return None, info
+
+
 def generate(seed, tier, idx=0):
     rng = common.rng_for(seed, "case")
+    if rng.random() < 0.06:
+        return gen_threaded(rng, seed)
     if rng.random() < 0.05:
         return {"kind": "extreme", "n": [rng.choice([1, 2, 3, 7, 10, 2 ** 31, 2 ** 52,
                                                      2 ** 53, 2 ** 53 + 1, 2 ** 53 + 3,
@@ -325,6 +408,19 @@ def execute(case):
         res["counters"]["fault:extreme_uniform"] = info["injected"]
         res["nontrivial"] = False
         res["case_digest"] = 0
+    elif case["kind"] == "threaded":
+        f, info = run_threaded(case)
+        res["counters"]["layer:two_threads"] = 1
+        res["counters"]["fault:preempt"] = info.get("switches", 0)
+        res["nontrivial"] = info.get("switches", 0) > 0
+        res["case_digest"] = common.digest8(case)
+        res["digest"] = common.digest([case, f and f[0], info.get("schedule")])
+        if f:
+            res["status"] = "harness" if f[0] == "harness" else "violation"
+            res["check_id"], res["message"] = f
+        else:
+            res["status"] = "ok"
+        return res
     else:
         f, info = run_history(case)
         res["counters"]["draws"] = info["draws"]
